@@ -41,7 +41,10 @@ type Scn struct {
 	WriteLag bool   // during the end phase the console's Write returns 3 ms after the terminal has answered
 	LoneEsc  bool   // a lone ESC goes in right before the end
 	End      string // close | suspend-close | suspend-resume-close | close-close
-	Seed     int64
+	// Resizes > 0 (kind "resize-handoff"): the terminal changes size that many times; each further change
+	// happens right after a Render has read the previous size (a schedule of specs/conc/ResizeFlag.tla)
+	Resizes int `json:",omitempty"`
+	Seed    int64
 }
 
 type Result struct {
@@ -54,6 +57,8 @@ type Result struct {
 	BGot     []int    `json:"bgot"`
 	Panic    string   `json:"panic"`
 	Race     string   `json:"race"`
+	RWant    []int    `json:"rwant"` // resize hand-off: the terminal's final size ...
+	RGot     []int    `json:"rgot"`  // ... and the size the library works with after the renders that follow
 }
 
 type pev struct{ P, N int }
@@ -111,8 +116,55 @@ func call(name string, fn func(), res *Result) bool {
 	}
 }
 
+// resizeHandoff: the terminal's size changes while the main goroutine is inside Render, at the point
+// ResizeFlag.tla's counterexample names: after Render has read the size it was told about and before it
+// returns. Afterwards the application renders as it would on the Redraw events it got; the library must
+// end up working with the terminal's final size.
+func resizeHandoff(sc *Scn, res *Result) *Result {
+	sess.ScrubEnv()
+	caps := responder.FromMask(sc.Mask&^(1<<3|1<<7), false) // size comes from the console (no in-band or XTWINOPS reports)
+	con := fakecon.New(20, 5)
+	resp := responder.New(caps, 20, 5, con.Inject)
+	con.OnWrite = resp.OnWrite
+	vx, err := vaxis.New(vaxis.Options{WithConsole: con, NoSignals: true, EventQueueSize: 64})
+	if err != nil {
+		res.What = "start: " + err.Error()
+		return res
+	}
+	go func() {
+		for range vx.Events() {
+		}
+	}()
+	vx.Render()
+	cols, rows := 20, 5
+	left := sc.Resizes
+	change := func() {
+		cols, rows = cols+3, rows+1
+		con.SetSize(cols, rows)
+		vx.Resize()
+	}
+	con.AfterSize = func() {
+		if left > 1 {
+			left--
+			change() // the next size change lands while this Render is under way
+		}
+	}
+	change()
+	for i := 0; i < sc.Resizes+3; i++ { // one Render per Redraw the application was sent, and a few more
+		vx.Render()
+	}
+	con.AfterSize = nil
+	w, h := vx.Window().Size()
+	res.RWant, res.RGot = []int{cols, rows}, []int{w, h}
+	call("Close", vx.Close, res)
+	return res
+}
+
 func Execute(sc *Scn) *Result {
-	res := &Result{Returned: true, Leaked: []string{}, Stuck: []string{}, Orders: [][]int{}, BSent: []int{}, BGot: []int{}}
+	res := &Result{Returned: true, Leaked: []string{}, Stuck: []string{}, Orders: [][]int{}, BSent: []int{}, BGot: []int{}, RWant: []int{}, RGot: []int{}}
+	if sc.Resizes > 0 {
+		return resizeHandoff(sc, res)
+	}
 	rng := rand.New(rand.NewSource(sc.Seed))
 	sess.ScrubEnv()
 	caps := responder.FromMask(sc.Mask, false)
@@ -348,6 +400,11 @@ func Gen(rng *rand.Rand) *Scn {
 
 func Fixed() []*Scn {
 	return []*Scn{
+		// the resize hand-off (specs/conc/ResizeFlag.tla): 1 = a plain resize, 2.. = further size changes each landing inside a Render
+		{Kind: "resize-handoff", Resizes: 1, Seed: 41},
+		{Kind: "resize-handoff", Resizes: 2, Seed: 42},
+		{Kind: "resize-handoff", Resizes: 3, Mask: 1 | 1<<1, Seed: 43},
+		{Kind: "resize-handoff", Resizes: 4, Mask: 1<<8 | 1<<9, Seed: 44},
 		{Kind: "flood-then-close", QSize: 2, Keys: 10, Chunk: 10, Reader: "none", End: "close", Seed: 1},
 		{Kind: "flood-then-close", QSize: 1, Keys: 40, Chunk: 3, Reader: "none", End: "close", Seed: 2},
 		{Kind: "flood-then-suspend", QSize: 2, Keys: 10, Chunk: 10, Reader: "none", End: "suspend-close", Seed: 3},
